@@ -93,3 +93,66 @@ theorem lwsStd_restart (m : Machine σ) (b s : Buf) (i n crl : Nat) (st1 : σ)
       rw [if_pos this]
 
 end Sipsp
+
+namespace Sipsp
+
+variable {σ : Type}
+
+/-- restart at a `lwsStd` site, second form: the resumed run starts from the state `st1` the step had moved
+    to (the `moreBytes:` bookkeeping `mb` is redone by whoever suspends next) -/
+theorem lwsStd_restart' (m : Machine σ) (b s : Buf) (i n crl : Nat) (st1 : σ)
+    (eoh : σ → Nat → Nat → Nat → Nat × Err × σ) (mb : σ → σ) {c : UInt8}
+    (hbi : b[i]? = some c) (hci : isLWSch c = true)
+    (hsk : skipLWS b i 0 = (n, crl, Err.moreBytes))
+    (hstep : ∀ j c', (b ++ s)[j]? = some c' → isLWSch c' = true →
+      m.step (b ++ s) j c' st1 = lwsStd (b ++ s) j st1 eoh mb)
+    (heoh : ∀ j j' n' crl', eoh st1 j n' crl' = eoh st1 j' n' crl')
+    (heob : ∀ j, m.eob (b ++ s) j st1 = (j, Err.moreBytes, mb st1)) :
+    runLoop m (b ++ s) n st1 = runStep m (b ++ s) i (lwsStd (b ++ s) i st1 eoh mb) := by
+  obtain ⟨hre, hin⟩ := skipLWS_restart b s i 0 hsk (by decide)
+  rcases hB : skipLWS (b ++ s) i 0 with ⟨n2, crl2, e2⟩
+  have hBn : skipLWS (b ++ s) n 0 = (n2, crl2, e2) := hre.trans hB
+  have hrange := skipLWS_range (b ++ s) n 0 hBn
+  have horig : lwsStd (b ++ s) i st1 eoh mb =
+      (match (n2, crl2, e2) with
+       | (n, _, .ok) => .cont n st1
+       | (n, crl, .eoh) => let r := eoh st1 i n crl; .done r.1 r.2.1 r.2.2
+       | (n, _, .moreBytes) => .done n .moreBytes (mb st1)
+       | (n, _, e) => .done n e st1) := by
+    unfold lwsStd; rw [hB]; rfl
+  cases hbn : (b ++ s)[n]? with
+  | none =>
+    rw [runLoop_none m st1 hbn, heob n]
+    rw [skipLWS_none hbn] at hBn
+    cases hBn
+    rw [horig]; simp only [runStep]
+  | some c' =>
+    by_cases hl : isLWSch c' = true
+    · rw [runLoop_eq_runStep m st1 hbn, hstep n c' hbn hl]
+      unfold lwsStd; rw [hBn, hB]
+      cases e2 with
+      | ok =>
+        have h1 : n < n2 := skipLWS_ok_gt (b ++ s) n 0 hbn hl hBn
+        have h2 : i < n2 := by omega
+        simp only [runStep, if_pos h1, if_pos h2]
+      | eoh => simp only [runStep, heoh n i]
+      | _ => rfl
+    · have hws : isWS c' = false := by
+        simp only [isLWSch, isWS, Bool.or_eq_true, not_or, beq_iff_eq] at hl ⊢
+        simp [hl.1.1.1, hl.1.1.2]
+      have hcr : isCRLFch c' = false := by
+        simp only [isLWSch, isCRLFch, Bool.or_eq_true, not_or, beq_iff_eq] at hl ⊢
+        simp [hl.1.2, hl.2]
+      rw [skipLWS_other hbn hws hcr] at hBn
+      cases hBn
+      rw [horig]
+      simp only [runStep]
+      have : i < n := by
+        rcases Nat.lt_or_ge i n with h | h
+        · exact h
+        · have : n = i := by omega
+          subst this
+          rw [get?_app hbi] at hbn; cases hbn; exact absurd hci hl
+      rw [if_pos this]
+
+end Sipsp
